@@ -139,3 +139,20 @@ func (s *Scenario) Replay() *Node {
 	}
 	return n
 }
+
+// ExecStep executes one recorded step on a node.
+func ExecStep(n *Node, st Step) {
+	switch st.Op {
+	case "begin":
+		n.BeginBlock(st.blockReq())
+	case "tx":
+		raw, _ := hex.DecodeString(st.Tx)
+		n.DeliverTx(raw)
+	case "end":
+		n.EndBlock()
+	case "commit":
+		n.Commit()
+	case "restart":
+		n.Restart()
+	}
+}
